@@ -1,5 +1,6 @@
 import PncModel.Camx.Uamiv
 import PncModel.Camx.Slab
+import PncModel.Camx.Landuse
 /- line protocol for the binary-format models -/
 namespace Camx
 open Words Wire
@@ -99,6 +100,8 @@ def runBin : List String → String
   | "cr-enc" :: toks => Slab.runCR toks
   | "wind-enc" :: toks => Slab.runWind toks
   | "bnd-enc" :: toks => Slab.runBnd toks
+  | "lu-enc" :: toks => Landuse.run ("lu-enc" :: toks)
+  | "lu-read" :: toks => Landuse.run ("lu-read" :: toks)
   | "uamiv-write" :: toks =>
     match parseWriteIn toks with
     | some i => "ok " ++ showWords (writerContent i).encode
